@@ -895,6 +895,7 @@ struct SweepData {
   amp: Vec<Complex<f64>>,
   amp_sw: Vec<Complex<f64>>,
   taus: Vec<f64>,
+  hom_cases: Vec<(usize, usize, f64)>,
   lines: Vec<(f64, f64, usize)>,
   planes: Vec<((f64, f64, usize), (f64, f64, usize))>,
   integrators: Vec<(&'static str, Integrator, bool, bool)>,
@@ -1116,6 +1117,38 @@ fn sweep_all(d: &SweepData) -> Vec<(String, Option<Val>)> {
       }
     }
   }
+  // unequal signal / idler spans, rectangular grids up to 100×100, non-zero delays of both signs: the
+  // parallel sum against the 1-thread pool (label compare) AND against a sequential point-by-point
+  // evaluation of the same sum over the sequentially traversed grid
+  for &(nx, ny, ratio) in d.hom_cases.iter() {
+    let len = nx * ny;
+    if len > d.amp.len() {
+      continue;
+    }
+    let yc = (d.y.0 + d.y.1) / 2.0;
+    let half = (d.y.1 - d.y.0) / 2.0 * ratio;
+    let range = FrequencySpace::new((d.x.0, d.x.1, nx), (yc - half, yc + half, ny));
+    let (j1, j2) = (&d.amp[..len], &d.amp_sw[..len]);
+    let norm: f64 = j1.iter().map(|z| z.norm_sqr()).sum();
+    let pts: Vec<(f64, f64)> = range.as_steps().into_iter().map(|(ws, wi)| (*(ws / (RAD / S)), *(wi / (RAD / S)))).collect();
+    let taus = [1.3e-13, -4.0e-13, 2.1e-12];
+    let series = guard(|| spdcalc::hom_rate_series(range, j1, j2, taus.iter().map(|t| *t * S)));
+    for (ti, &tau) in taus.iter().enumerate() {
+      let g = format!("nx={} ny={} idler_span_ratio={} tau={:e}", nx, ny, ratio, tau);
+      let v = guard(|| spdcalc::hom_rate(range, j1, j2, tau * S, None));
+      out.push((format!("what=hom_rate/unequal-spans {}", g), v.map(re)));
+      // sequential evaluation of  ½ (1 − Σ Re(conj(f_si) f_is e^{i (ωi − ωs) τ}) / Σ |f_si|²)
+      let mut acc = 0.0;
+      for (k, (ws, wi)) in pts.iter().enumerate() {
+        acc += (j1[k].conj() * j2[k] * Complex::from_polar(1.0, (wi - ws) * tau)).re;
+      }
+      let oracle = 0.5 * (1.0 - acc / norm);
+      let near = |x: f64| (x - oracle).abs() <= 1e-12 * oracle.abs().max(0.5);
+      out.push((format!("what=hom_rate/vs-sequential-sum {} sequential={:e} got={:e}", g, oracle, v.unwrap_or(f64::NAN)), Some(Val::Flag(v.map(near).unwrap_or(false)))));
+      let sv = series.as_ref().and_then(|s| s.get(ti).copied());
+      out.push((format!("what=hom_rate_series/vs-sequential-sum {} sequential={:e} got={:e}", g, oracle, sv.unwrap_or(f64::NAN)), Some(Val::Flag(sv.map(near).unwrap_or(false)))));
+    }
+  }
   // amplitude scales down to 1e-30 and up to 1e+30 (the statement has no range restriction)
   for &(nx, ny) in [(5usize, 5usize), (6, 6), (3, 7), (11, 11)].iter() {
     for scale in [1e-30, 1e30] {
@@ -1238,7 +1271,13 @@ fn sweep_part(ctx: &mut Ctx) {
   for _ in 0..2 {
     grids.push((ctx.rng.between(1, 14), ctx.rng.between(1, 14)));
   }
-  let maxlen = grids.iter().map(|g| g.0 * g.1).max().unwrap_or(0);
+  // (nx, ny, idler span / signal span)
+  let mut hom_cases: Vec<(usize, usize, f64)> = vec![(2, 2, 0.5), (3, 5, 0.87), (7, 4, 1.13), (12, 12, 2.0), (16, 9, 1.13), (40, 25, 0.87), (100, 100, 1.13), (64, 100, 0.5), (100, 37, 2.0), (1, 9, 1.13), (9, 1, 0.87)];
+  if ctx.thorough {
+    hom_cases.extend([(5, 5, 1.0), (30, 30, 1.5), (100, 100, 0.87), (100, 100, 2.0), (99, 101, 0.5), (17, 80, 1.3), (80, 17, 0.7)]);
+  }
+  hom_cases.push((ctx.rng.between(2, 60), ctx.rng.between(2, 60), ctx.rng.range(0.5, 2.0)));
+  let maxlen = grids.iter().map(|g| g.0 * g.1).chain(hom_cases.iter().map(|g| g.0 * g.1)).max().unwrap_or(0);
   let amp: Vec<Complex<f64>> = (0..maxlen).map(|_| Complex::from_polar(0.5 + ctx.rng.unit(), std::f64::consts::TAU * ctx.rng.unit())).collect();
   let amp_sw: Vec<Complex<f64>> = (0..maxlen).map(|_| Complex::from_polar(0.5 + ctx.rng.unit(), std::f64::consts::TAU * ctx.rng.unit())).collect();
   let data = std::sync::Arc::new(SweepData {
@@ -1251,6 +1290,7 @@ fn sweep_part(ctx: &mut Ctx) {
     amp,
     amp_sw,
     taus: vec![0.0, 1.3e-13, -4.0e-13],
+    hom_cases,
     lines: {
       let mut l = vec![(0.0, 0.9, 0), (3.3, 4.0, 1), (0.0, 0.9, 2), (1.0, -1.0, 2), (2.5, 2.5, 3), (1.0, -1.0, 5), (1400e-9, 1600e-9, 16), (-0.0, 0.9, 65)];
       if ctx.thorough {
@@ -1336,7 +1376,7 @@ fn sweep_part(ctx: &mut Ctx) {
             match (val, v0) {
               (None, _) => ctx.s("C15.reduce", false, &format!("sweep/{}/panic", what), &tail),
               (Some(_), None) => {} // the 1-thread run itself failed: reported for threads=1
-              (Some(Val::Flag(ok)), _) => ctx.s("C15.traverse", *ok, &format!("sweep/{}/{}", what, if *ok { "ok" } else { "differs" }), &tail),
+              (Some(Val::Flag(ok)), _) => ctx.s(if what.starts_with("hom_rate") { "C15.reduce" } else { "C15.traverse" }, *ok, &format!("sweep/{}/{}", what, if *ok { "ok" } else { "differs" }), &tail),
               (Some(Val::Bits(b)), Some(Val::Bits(b0))) => {
                 let ok = b == b0;
                 ctx.s("C15.range", ok, &format!("sweep/{}/{}", what, if ok { "ok" } else { "not-bit-identical" }), &tail);
